@@ -1,4 +1,5 @@
 """C02 Loaded data always matches its content address."""
+import concurrent.futures as cf
 import json, os
 import verif
 
@@ -28,13 +29,15 @@ def key_of(r):
 
 def run(ctx):
     # design model of a verified, retried content-addressed read: exhaustive, plus the refuted negative twin
-    d = ctx.tlc("ContentAddrRead", cfg="ContentAddrRead.cfg", deadlock=False, name="design")
-    tw = ctx.tlc("ContentAddrRead", cfg="ContentAddrRead_twin.cfg", deadlock=False, allow_violation=True, name="twin")
+    maxa = ctx.pick(2, 3)
+    with cf.ThreadPoolExecutor(max_workers=3) as ex:
+        fd = ex.submit(ctx.tlc, "ContentAddrRead", cfg="ContentAddrRead.cfg", deadlock=False, name="design")
+        ft = ex.submit(ctx.tlc, "ContentAddrRead", cfg="ContentAddrRead_twin.cfg", deadlock=False, allow_violation=True, name="twin")
+        # fault scripts enumerated by TLC
+        fv = ex.submit(ctx.tlc, "Fn_ContentAddrVec", cfg="Fn_ContentAddrVec.cfg", deadlock=False, defines={"MaxAttempts": str(maxa)}, name="vectors")
+        d, tw, v = fd.result(), ft.result(), fv.result()
     if "Safe" not in tw["violated"]:
         raise verif.MachineryError("negative twin (one read attempt left unverified) was not refuted by TLC")
-    # fault scripts enumerated by TLC
-    maxa = ctx.pick(2, 3)
-    v = ctx.tlc("Fn_ContentAddrVec", cfg="Fn_ContentAddrVec.cfg", deadlock=False, defines={"MaxAttempts": str(maxa)}, name="vectors")
     vec = os.path.join(v["dir"], "vectors.ndjson")
     nvec = sum(1 for _ in open(vec))
     if nvec < 56:
@@ -60,5 +63,6 @@ def run(ctx):
         "SHA-256 is abstracted: the Go driver computes it with crypto/sha256 and its own decrypt/decompress, independently of restic's checks, and records booleans; served contents are classes good/altered/truncated/extended/empty/foreign/error, 'foreign' = a valid file of the same kind with the same blob layout (stale or misdirected bytes)",
         "fault scripts are all sequences over the 7 classes of length <= 2 (thorough: <= 3), enumerated by TLC; attempt i of a read of the target is served script[i], the last class repeats; served through kit.Store.ReadFault",
         "LoadUnpacked returns decoded bytes: 'hash_ok' there means the returned document equals the document saved under that id; the retry policy itself (how many attempts) is not judged, only what is handed out",
+        "checkPack (check --read-data) hands out a verdict instead of bytes: ending without an error counts as 'what was read matches its address' and is judged against the driver's own verification of the stored pack and the class of bytes served last; stored states: sound packs, and an intact pack holding one blob under an id that is not the hash of its plaintext (written with the extra verification off and a caller-supplied id) - every read of that blob has to report an error",
         "cache states: none / warm / warm with the cached file corrupted on disk, for the file kinds the cache keeps (snapshot, index, tree packs), scripts of length <= 2",
     ])
